@@ -43,7 +43,7 @@ def run(ck):
         ck.require_monitor(m)
     for r in ("all-pass-multi-share", "mixed-existing-new", "test-fails-on-last-share", "test-fails-elsewhere",
               "bad-enabler", "bad-enabler-only-on-one-share", "enabler-any-when-no-shares", "late-write-raises",
-              "late-vector-same-share-raises", "delete-in-multi-share-request"):
+              "late-vector-same-share-raises", "delete-in-multi-share-request", "overlapping-write-vectors"):
         ck.require_reach(r)
     ck.exhaustive = False
 
@@ -110,7 +110,9 @@ def _one_case(ck, rng, case, ci, BadWriteEnablerError, MAX):
                 o = rng.choice([0, rng.randint(0, len(cur) + 30), len(cur), len(cur) + rng.choice([1, 700])])
                 n = rng.choice([1, 2, 20, 400])
                 if any(o < b and a < o + n for a, b in taken):
-                    continue
+                    if rng.random() < .8:
+                        continue
+                    ck.hit("overlapping-write-vectors")     # applied in list order: the later one wins
                 taken.append((o, o + n))
                 datav.append((o, S.rand_bytes(rng, n)))
             after = len(S.apply_writes(cur, datav, None))
